@@ -174,7 +174,20 @@ fn run_split(local_backend: bool, d: &Dataset, fault1: Option<Fault>, fault2: Op
                 Ok(false) => {
                     attempts.push(format!("resume#{} -> nothing to resume, restarting", n));
                     // re-read the shard (it may have changed) and start over
-                    let cur = seed_meta.get_shard_metadata(OLD).await.ok().flatten().unwrap_or_else(|| shard.clone());
+                    // (read past the gate: the harness' own look at the catalog must not be the request the
+                    // nested fault hits - a failed read here made it restart from stale metadata)
+                    let harness_meta: Arc<dyn MetadataClient> = if local_backend {
+                        local.clone()
+                    } else {
+                        Arc::new(ObjectStoreMetadataClient::new(ctl.backing.clone(), ObjectStoreMetadataConfig::default()))
+                    };
+                    let cur = match harness_meta.get_shard_metadata(OLD).await {
+                        Ok(Some(c)) => c,
+                        other => {
+                            attempts.push(format!("harness could not re-read the old shard: {:?}", other.map(|o| o.is_some())));
+                            break;
+                        }
+                    };
                     if !cur.is_active() {
                         // nothing to resume and the old shard is already deactivated: the split has run
                         // to its end (e.g. only the removal of the progress file was interrupted after it
